@@ -472,6 +472,9 @@ func StateString(s *TxState) string {
 // ReconcileEverything calls every reconciler on every existing object once, with fresh reconcilers
 // on the undecorated stores (the "any object may be reconciled at any time" regime)
 func (e *Exec) ReconcileEverything() {
+	// the pass runs on the harness' own goroutine: no kill may be armed any more
+	e.W.CrashBeforeEffect(0)
+	e.W.CrashBeforeRPC(0)
 	inc := e.W.Cur()
 	ctx := context.Background()
 	txR := txctl.NewReconcilerForVerif(inc.RawTxs, inc.RawPr)
